@@ -5,8 +5,9 @@
   concurrent mix of API calls) on the real library.  It knows nothing about write sites or aliasing:
   only which package-level defaults / caller-supplied objects / other instances differ afterwards
   (deep snapshot comparison, field granularity), whether a behavioural probe of a shared object
-  (does the HTTP client still follow redirects?) answers differently, and how many data races the race
-  detector reported.
+  (does the HTTP client still follow redirects?) answers differently, whether an EARLIER instance answers its
+  own clients differently (discovery issuer and endpoints, authorization endpoint, keys endpoint), and how many
+  data races the race detector reported.
 -/
 namespace C20
 
@@ -19,6 +20,10 @@ structure Obs where
   behaviourChanged : List String
   /-- other instances (not the one constructed / used in this step) whose observable configuration differs -/
   othersChanged : List String
+  /-- instances that existed BEFORE this step and are not the one it acts on, whose BEHAVIOUR towards their own clients
+      differs afterwards: `#id:type.probe` with probe ∈ discovery (issuer + every endpoint URL, for a request with Host and
+      forwarding headers) | authorize | keys | authurl | endpoints -/
+  instanceBehaviourChanged : List String := []
   /-- data races reported for the step (concurrent mixes under the race detector) -/
   races : Nat
   panicked : Bool
@@ -30,6 +35,7 @@ def monitor (o : Obs) : Option String :=
   else if !o.globalsChanged.isEmpty then some "package-default-changed"
   else if !o.suppliedChanged.isEmpty then some "supplied-object-changed"
   else if !o.behaviourChanged.isEmpty then some "later-behaviour-changed"
+  else if !o.instanceBehaviourChanged.isEmpty then some "instance-behaviour-changed"
   else if !o.othersChanged.isEmpty then some "other-instance-changed"
   else if o.races > 0 then some "data-race"
   else none
